@@ -211,7 +211,9 @@ def apply_query(string, query=None, type=None, fields=None):
     # fields updated by Query is OK
     new_string = sid_resolver.dict_to_sid(new_data, _type)
     if new_string:
-        return new_string, _type, new_data
+        # fields in template order (the updated data is in insertion order)
+        __, ordered_data = sid_resolver.sid_to_dict(new_string, _type)
+        return new_string, _type, ordered_data or new_data
     else:
         raise SpilException(
             f"Sid: [{string}?{query}] Query was correctly applied, but unable to resolve back to Sid"
